@@ -190,8 +190,22 @@ def r2_scaling(idx, r):
     up = [c for c in iter_calls(cv.node) if dotted(c.func) == "self._scaleBlockVolIntegratedParams"]
     dn = [c for c in iter_calls(rs.node) if dotted(c.func) == "self._scaleBlockVolIntegratedParams"]
     r.require(len(up) == 1 and norm(up[0].args[1]) == "'up'" and len(dn) == 1 and norm(dn[0].args[1]) == "'down'", "scale:convert-up-restore-down", cv, msg="convert scales up, restore scales down")
-    cu = [norm(t) for t, p in path_conditions(cv.node, up[0]) if p] if up else []
-    r.require("a.getLocation() == '001-001'" in cu, "scale:centre-only-on-convert", cv, node=up[0] if up else None, msg=f"only the centre assembly is scaled on conversion: {cu}")
+    envc = single_assign_env(cv.node)
+
+    def _says_centre(t, pol):
+        """the condition (test, polarity) states `<assembly>.getLocation() == '001-001'`, whichever way it is written"""
+        t = propagate(t, envc)
+        while isinstance(t, ast.UnaryOp) and isinstance(t.op, ast.Not):
+            t, pol = t.operand, not pol
+        if not (isinstance(t, ast.Compare) and len(t.ops) == 1 and isinstance(t.ops[0], (ast.Eq, ast.NotEq))):
+            return False
+        if isinstance(t.ops[0], ast.NotEq):
+            pol = not pol
+        sides = {norm(t.left), norm(t.comparators[0])}
+        return pol and "'001-001'" in sides and any(x.endswith(".getLocation()") for x in sides)
+    pcs = path_conditions(cv.node, up[0]) if up else []
+    cu = [("" if p else "not ") + norm(t) for t, p in pcs]
+    r.require(any(_says_centre(t, p) for t, p in pcs), "scale:centre-only-on-convert", cv, node=up[0] if up else None, msg=f"only the centre assembly is scaled on conversion: {cu}")
     a_src = next((s for s in iter_stores(rs.node) if s.attr == "a" and s.kind == "assign" and s.value is not None and "getAssemblyWithStringLocation" in norm(s.value)), None)
     r.require(a_src is not None and norm(a_src.value) == "r.core.getAssemblyWithStringLocation('001-001')", "scale:centre-only-on-restore", rs, msg="the same centre assembly is scaled back on restore")
     for c, f in ((up[0], cv), (dn[0], rs)) if up and dn else ():
